@@ -34,8 +34,13 @@ META = {
              "/ remove_trait / new-instance on 3-10 instances of all classes in random order, names drawn "
              "from exact, single-prefix, multi-prefix, private, unrelated and (unjudged) dunder names. "
              "Strata: 'main' (remove_trait only where an instance trait exists or nothing is stored), "
-             "'noop' (remove_trait drawn freely: pattern of the open finding F17), 'late' (a wildcard "
-             "rule added by a later subclass / add_class_trait after the name was already resolved). "
+             "'noop' (remove_trait drawn freely: pattern of the fixed finding F17), 'late' (a wildcard "
+             "rule added by a later subclass / add_class_trait after the name was already resolved), "
+             "'listener' (classes with a static _trait_added_changed method and instances with a dynamic "
+             "on_trait_change(..., 'trait_added') listener that re-entrantly add_trait()s an instance "
+             "trait of a random kind for the announced name when it matches a random prefix rule, once "
+             "per (instance, name); the access that triggered the announcement -- get / set / del / "
+             "on_trait_change(handler, name) -- must already be governed by that instance trait). "
              "distinct_nontrivial counts distinct (op, governing kind, resolution route, number and "
              "origin of matching prefixes, root, stored-state class, outcome class) signatures of judged "
              "operations."),
@@ -48,7 +53,10 @@ META = {
                   "strict_undeclared_ops": 40000, "private_name_ops": 8000, "event_ops": 12000,
                   "constant_ops": 12000, "noop_removes_checked": 8000, "noop_removes_with_value": 100,
                   "instance_traits_removed": 1800, "reads_directly_after_remove": 900,
-                  "late_checks": 500, "late_checks_after_resolution": 300},
+                  "late_checks": 500, "late_checks_after_resolution": 300,
+                  "listener_hierarchies": 600, "listener_added_traits": 6000,
+                  "listener_first_get": 1400, "listener_first_set": 2700, "listener_first_del": 1100,
+                  "listener_first_hook": 900, "hook_ops": 2600, "dynamic_listeners": 800},
         "thorough": {"evaluations": 9000000, "hierarchies": 90000, "multi_prefix_ops": 1080000,
                   "cross_class_prefix_ops": 720000, "cross_instance_ops": 3240000,
                   "instance_trait_ops": 1440000, "restored_after_remove_ops": 360000,
@@ -57,7 +65,11 @@ META = {
                   "constant_ops": 432000, "noop_removes_checked": 288000,
                   "noop_removes_with_value": 3600, "instance_traits_removed": 64800,
                   "reads_directly_after_remove": 32400, "late_checks": 6000,
-                  "late_checks_after_resolution": 3600},
+                  "late_checks_after_resolution": 3600,
+                  "listener_hierarchies": 18000, "listener_added_traits": 180000,
+                  "listener_first_get": 42000, "listener_first_set": 81000,
+                  "listener_first_del": 33000, "listener_first_hook": 27000, "hook_ops": 78000,
+                  "dynamic_listeners": 24000},
     },
     "assumptions": [
         "the manual's wildcard rules, HasStrictTraits/HasPrivateTraits definitions and the trait "
@@ -69,6 +81,11 @@ META = {
         "class-level rule",
         "HasTraits itself declares the wildcard rule '_traits_cache__' (Any); it is part of the model's "
         "root rules",
+        "when traits announces a name through trait_added is not modelled: the model only observes "
+        "which instance traits the harness's own listeners added (and keeps them out of the harness's "
+        "own add_trait calls, where the order of the two additions is unspecified)",
+        "on_trait_change(handler, name) is not judged itself; names registered that way are not given "
+        "to remove_trait unless the model holds an instance trait for them",
     ],
 }
 
@@ -294,7 +311,75 @@ def gen_setup(rng):
     return root, steps, models
 
 
-def build(root, steps, tag):
+class ListenerHub:
+    """Harness side of the `trait_added` listeners of the 'listener' stratum.
+
+    A listener re-entrantly calls ``obj.add_trait(name, kind)`` for the name
+    whose addition is being announced, once per (instance, name), when the
+    name matches its rule -- and tells the model what it did.  The model does
+    not predict *when* traits announces a name; it only observes which
+    instance traits the listener added, and demands that they govern every
+    access from then on, the access that triggered the announcement included.
+    """
+
+    def __init__(self):
+        self.H = None
+
+    def announce(self, obj, name, how, prefix, kind):
+        H = self.H
+        if H is None or type(name) is not str:
+            return
+        inst = H.by_id.get(id(obj))
+        if inst is None or inst.obj is not obj:
+            return
+        H.ctx.count("trait_added_announcements")
+        if (not name.startswith(prefix) or name in DUNDER or name.endswith("_")
+                or name in ("trait_added", "trait_modified")):
+            return
+        if H.explicit_add == (inst.serial, name) or name in inst.listener_done:
+            return
+        inst.listener_done.add(name)
+        try:
+            obj.add_trait(name, mk_trait(kind))
+        except BaseException as e:  # noqa: BLE001 - traits would swallow it
+            H.hook_errors.append((inst.serial, name, kind, type(e).__name__))
+            return
+        inst.itraits[name] = kind
+        st = inst.state(name)
+        if st[0] != "no":
+            st[0], st[1] = "unknown", None
+        H.listener_log.append((inst.serial, name))
+        H.log.append(("listener-add_trait", how, inst.serial, name, kind))
+        H.ctx.count("listener_added_traits")
+
+    def static(self, prefix, kind):
+        hub = self
+
+        def _trait_added_changed(self, new):
+            hub.announce(self, new, "static", prefix, kind)
+        return _trait_added_changed
+
+    def dynamic(self, prefix, kind):
+        hub = self
+
+        def on_trait_added(obj, name, new):
+            hub.announce(obj, new, "dynamic", prefix, kind)
+        return on_trait_added
+
+
+def gen_listeners(rng, ncls):
+    """Listener specs of one 'listener' history (literal data)."""
+    def rule():
+        return (rng.choice(("", "", "a", "a", "ab", "b", "x", "_", "_p", "abc")), gen_kind(rng, False))
+    static = {}
+    for ci in range(ncls):
+        if ci == 0 or rng.random() < 0.45:
+            static[ci] = rule()
+    return {"static": static, "dynamic_p": rng.choice((0.0, 0.3, 0.6)),
+            "dynamic_rules": [rule() for _ in range(3)]}
+
+
+def build(root, steps, tag, hub=None, listeners=None):
     """Realise the steps with the metaclass; returns the list of classes."""
     classes = []
     for st in steps:
@@ -303,6 +388,8 @@ def build(root, steps, tag):
             base = ROOTS[root] if parent is None else classes[parent]
             ns = {name: mk_trait(kind) for name, kind in decl}
             ns["__module__"] = __name__
+            if listeners is not None and idx in listeners["static"]:
+                ns["_trait_added_changed"] = hub.static(*listeners["static"][idx])
             classes.append(type(base)("K%s_%d" % (tag, idx), (base,), ns))
         else:
             _, idx, name, kind = st
@@ -330,7 +417,8 @@ def name_pool(models):
 # --------------------------------------------------------------------------
 
 class Inst:
-    __slots__ = ("serial", "cls", "obj", "itraits", "st", "touched", "removed")
+    __slots__ = ("serial", "cls", "obj", "itraits", "st", "touched", "removed", "hooked",
+                 "listener_done", "dyn")
 
     def __init__(self, serial, cls, obj):
         self.serial = serial
@@ -340,6 +428,10 @@ class Inst:
         self.st = {}                # name -> [has, val]; has in no/yes/maybe/stale/unknown
         self.touched = set()
         self.removed = set()        # names whose instance trait was removed
+        self.hooked = set()         # names given to on_trait_change (traits keeps an instance
+                                    # trait of its own for them)
+        self.listener_done = set()  # names the trait_added listener already handled
+        self.dyn = None             # dynamic trait_added listener (kept alive)
 
     def state(self, name):
         s = self.st.get(name)
@@ -386,16 +478,45 @@ class History:
         self.insts = []
         self.log = []               # literal ops executed so far
         self.seen = {}              # name -> set of (class idx, serial) that touched it
+        self.by_id = {}             # id(obj) -> Inst (objects are kept alive by self.insts)
+        self.listeners = None       # listener specs ('listener' stratum)
+        self.listener_log = []      # (serial, name) of instance traits added by listeners
+        self.hook_errors = []
+        self.explicit_add = None    # (serial, name) while the harness itself calls add_trait
+        self.key_override = None    # mechanism key for the operation in progress
 
     # -- bookkeeping ---------------------------------------------------------
     def new_instance(self, ci):
         inst = Inst(len(self.insts), ci, self.classes[ci]())
         self.insts.append(inst)
+        self.by_id[id(inst.obj)] = inst
         return inst
 
+    def access(self, inst, name, fn, *args):
+        """Run one attribute access; tell whether a trait_added listener added
+        an instance trait for this very (instance, name) while it ran."""
+        n0 = len(self.listener_log)
+        out = attempt(fn, inst.obj, name, *args)
+        fired = (inst.serial, name) in self.listener_log[n0:]
+        if self.hook_errors:
+            self.fail("listener/add_trait-raised-%s" % self.hook_errors[0][3],
+                      "add_trait called from a trait_added listener raised: %r" % (self.hook_errors[0],))
+        return out, fired
+
+    def first_access(self, op, inst, name):
+        kind, route = self.governing(inst, name)
+        self.ctx.sig("listener-first", op, kind[0], route[1], self.root)
+        self.ctx.count("listener_first_%s" % op)
+        self.ctx.count("listener_first_access_ops")
+        self.key_override = "listener-added-trait/first-%s/not-governed-by-instance-trait" % op
+
     def fail(self, key, msg, **extra):
+        key = self.key_override or key
         w = {"root": self.root, "setup": self.steps, "stratum": self.stratum,
              "instances": [i.cls for i in self.insts], "history": self.log[-60:]}
+        if self.listeners is not None:
+            w["listeners"] = self.listeners
+            msg += " | listeners=%r" % (self.listeners,)
         w.update(extra)
         self.ctx.violation(key, msg + " | root=%s setup=%r history(tail)=%r"
                            % (self.root, self.steps, self.log[-8:]), w)
@@ -481,10 +602,16 @@ class History:
         kind, route = self.governing(inst, name)
         s = self.settle(inst, name, kind)
         inst.touched.add(name)
+        out, fired = self.access(inst, name, getattr)
+        self.log.append((tag, inst.serial, name, out[0], short(out[1], 30)))
+        if fired:
+            self.first_access("get", inst, name)
+            kind, route = self.governing(inst, name)
+            s = inst.state(name)
+            if s[0] == "unknown":
+                return
         k = kind[0]
         has = s[0]
-        out = attempt(getattr, inst.obj, name)
-        self.log.append((tag, inst.serial, name, out[0], short(out[1], 30)))
         if has == "stale":
             self.ctx.count("unjudged_stale_reads")
             if out[0].startswith("EXC-"):
@@ -528,10 +655,16 @@ class History:
         kind, route = self.governing(inst, name)
         s = self.settle(inst, name, kind)
         inst.touched.add(name)
+        out, fired = self.access(inst, name, setattr, v)
+        self.log.append(("set", inst.serial, name, v, out[0]))
+        if fired:
+            self.first_access("set", inst, name)
+            kind, route = self.governing(inst, name)
+            s = inst.state(name)
+            if s[0] == "unknown":
+                return
         k = kind[0]
         has = s[0]
-        out = attempt(setattr, inst.obj, name, v)
-        self.log.append(("set", inst.serial, name, v, out[0]))
         vclass = type(v).__name__
         if out[0].startswith("EXC-"):
             self.fail("set/%s/unexpected-%s" % (k, out[0]),
@@ -591,10 +724,16 @@ class History:
         kind, route = self.governing(inst, name)
         s = self.settle(inst, name, kind)
         inst.touched.add(name)
+        out, fired = self.access(inst, name, delattr)
+        self.log.append(("del", inst.serial, name, out[0]))
+        if fired:
+            self.first_access("del", inst, name)
+            kind, route = self.governing(inst, name)
+            s = inst.state(name)
+            if s[0] == "unknown":
+                return
         k = kind[0]
         has = s[0]
-        out = attempt(delattr, inst.obj, name)
-        self.log.append(("del", inst.serial, name, out[0]))
         if out[0].startswith("EXC-"):
             self.fail("del/%s/unexpected-%s" % (k, out[0]), "del %r raised %s" % (name, out[0]),
                       name=name, kind=kind)
@@ -620,7 +759,13 @@ class History:
             s[0], s[1] = "no", None
 
     def do_add(self, inst, name, kind):
-        out = attempt(inst.obj.add_trait, name, mk_trait(kind))
+        # add_trait itself announces a new name; which of the two add_trait
+        # calls would win is not specified, so the listener stays out of it.
+        self.explicit_add = (inst.serial, name)
+        try:
+            out = attempt(inst.obj.add_trait, name, mk_trait(kind))
+        finally:
+            self.explicit_add = None
         self.log.append(("add_trait", inst.serial, name, kind, out[0]))
         self.ctx.ev()
         if out[0] != "ok":
@@ -631,6 +776,27 @@ class History:
         if name in inst.touched or s[0] != "no":
             s[0], s[1] = "unknown", None
         self.ctx.sig("add", kind[0], _resolve_class(self.models[inst.cls], name)[1][0], self.root)
+
+    def do_hook(self, inst, name, values, readback):
+        """on_trait_change(handler, name) as the (possibly first) mention of a
+        name, then a fingerprint.  The registration itself is not judged."""
+        def handler():
+            pass
+        n0 = len(self.listener_log)
+        out = attempt(inst.obj.on_trait_change, handler, name)
+        fired = (inst.serial, name) in self.listener_log[n0:]
+        self.log.append(("on_trait_change", inst.serial, name, out[0], fired))
+        inst.hooked.add(name)
+        self.ctx.count("hook_ops")
+        if self.hook_errors:
+            self.fail("listener/add_trait-raised-%s" % self.hook_errors[0][3],
+                      "add_trait called from a trait_added listener raised: %r" % (self.hook_errors[0],))
+        if out[0].startswith("EXC-"):
+            self.fail("on_trait_change/unexpected-%s" % out[0],
+                      "on_trait_change(handler, %r) raised %s" % (name, out[0]), name=name)
+        if fired:
+            self.first_access("hook", inst, name)
+        self.do_fp(inst, name, values, readback)
 
     def do_remove(self, inst, name, read_now=True):
         had = name in inst.itraits
@@ -649,6 +815,7 @@ class History:
                           name=name)
             del inst.itraits[name]
             inst.removed.add(name)
+            inst.hooked.discard(name)
             # "removing an instance trait restores the class-level rule": the
             # value stored under the removed trait goes with it, so the name now
             # behaves as a never-assigned name of the class-level rule (default /
@@ -683,29 +850,56 @@ class History:
                           name=name, kind=kind, route=route, cls=inst.cls, before=s[1], after=got)
 
 
-def run_history(ctx, case, rng, stratum):
+def run_history(ctx, case, rng, stratum, lrng=None):
     root, steps, models = gen_setup(rng)
-    classes = build(root, steps, case.replace(":", "_"))
+    hub = listeners = None
+    if stratum == "listener":
+        hub = ListenerHub()
+        listeners = gen_listeners(lrng, len(models))
+    classes = build(root, steps, case.replace(":", "_"), hub, listeners)
     H = History(ctx, case, root, steps, models, classes, stratum)
+    if hub is not None:
+        hub.H = H
+        H.listeners = listeners
+        ctx.count("listener_hierarchies")
+
+    def new_instance(ci):
+        inst = H.new_instance(ci)
+        if listeners is not None and lrng.random() < listeners["dynamic_p"]:
+            rule = lrng.choice(listeners["dynamic_rules"])
+            inst.dyn = hub.dynamic(*rule)
+            inst.obj.on_trait_change(inst.dyn, "trait_added")
+            H.log.append(("dynamic-trait_added-listener", inst.serial, rule))
+            ctx.count("dynamic_listeners")
+        return inst
     ctx.count("hierarchies")
     for ci in range(len(classes)):
-        H.new_instance(ci)
+        new_instance(ci)
     for _ in range(rng.randint(0, 2)):
-        H.new_instance(rng.randrange(len(classes)))
+        new_instance(rng.randrange(len(classes)))
     pool = name_pool(models)
+    if listeners is not None:
+        # more never-mentioned names, so that first resolutions stay frequent
+        extra = set(("n1", "m2", "zq", "w", "_w", "b7", "xq"))
+        for p, _ in list(listeners["static"].values()) + listeners["dynamic_rules"]:
+            extra.update((p + "7", p + "q", p + "_y"))
+        pool = sorted(set(pool) | extra)
     hot = rng.sample(pool, min(len(pool), 8))     # names revisited often: cache reuse
     nsteps = 40
     weights = {"fp": 3, "set": 3, "get": 3, "del": 1.5, "add": 1.5, "remove": 1.5, "new": 0.4}
     if stratum == "noop":
         weights["remove"] = 4
+    if stratum == "listener":
+        weights.update({"del": 2.5, "hook": 2.0, "add": 1.0})
     opnames = list(weights)
     opw = [weights[o] for o in opnames]
     try:
         for step in range(nsteps):
+            H.key_override = None
             inst = rng.choice(H.insts)
             op = rng.choices(opnames, opw)[0]
             r = rng.random()
-            if r < 0.5:
+            if r < (0.5 if listeners is None else 0.3):
                 name = rng.choice(hot)
             elif r < 0.97:
                 name = rng.choice(pool)
@@ -714,7 +908,7 @@ def run_history(ctx, case, rng, stratum):
             ctx.count("history_ops")
             if op == "new":
                 if len(H.insts) < 10:
-                    ni = H.new_instance(rng.randrange(len(classes)))
+                    ni = new_instance(rng.randrange(len(classes)))
                     H.log.append(("new", ni.serial, ni.cls))
                     continue
                 op = "get"
@@ -740,13 +934,25 @@ def run_history(ctx, case, rng, stratum):
                     order = list(VCLASSES)
                     rng.shuffle(order)
                     H.do_fp(inst, name, [value_for(rng, c) for c in order], rng.random() < 0.6)
+            elif op == "hook":
+                if name in DUNDER or name.endswith("_"):
+                    H.do_get(inst, name)
+                    continue
+                order = list(VCLASSES)
+                rng.shuffle(order)
+                H.do_hook(inst, name, [value_for(rng, c) for c in order], rng.random() < 0.6)
             elif op == "remove":
                 if inst.itraits and rng.random() < 0.7:
                     name = rng.choice(sorted(inst.itraits))
                 if name in DUNDER:
                     continue
-                if stratum == "main" and name not in inst.itraits and inst.state(name)[0] != "no":
-                    # pattern of the open finding F17 lives in the 'noop' stratum
+                if stratum != "noop" and name not in inst.itraits and inst.state(name)[0] != "no":
+                    # pattern of the (fixed) finding F17 lives in the 'noop' stratum
+                    H.do_get(inst, name)
+                    continue
+                if name in inst.hooked and name not in inst.itraits:
+                    # on_trait_change(handler, name) makes traits keep an instance trait of
+                    # its own for the name; whether remove_trait sees it is not C13's business
                     H.do_get(inst, name)
                     continue
                 had = name in inst.itraits
@@ -837,6 +1043,20 @@ def run(ctx):
             if h == ctx.shard:
                 ctx.sample({"root": H.root, "setup": H.steps, "stratum": stratum,
                             "history": H.log[:12]}, cap=2)
+        finally:
+            ctx.end()
+    nls = ctx.scale(2400, 75000)
+    for h in range(nls):
+        if not ctx.mine(h):
+            continue
+        case = "lsn:%d" % h
+        if not ctx.begin(case, {"stratum": "listener"}):
+            continue
+        try:
+            H = run_history(ctx, case, ctx.rng("lsn", h), "listener", ctx.rng("lsn-listeners", h))
+            if h == ctx.shard:
+                ctx.sample({"root": H.root, "setup": H.steps, "stratum": "listener",
+                            "listeners": H.listeners, "history": H.log[:12]}, cap=3)
         finally:
             ctx.end()
     nl = ctx.scale(1600, 20000)
